@@ -368,6 +368,23 @@ func VH_C18(vm *VM, inst int) {
 			}
 		}
 	}
+	// a bound specifier selects by the specifier itself, not by its class: for every touched name of the pool (and +) and each of the 7 specifiers, current_op(P, Spec, Name) answers iff the table has exactly that specifier
+	for i, n := range m.names {
+		if !touched[n] && n != xPlus {
+			continue // + stands for the names the history did not touch (prefix fy and infix yfx in the bootstrap table)
+		}
+		for _, sn := range c18Specs {
+			sp := NewAtom(sn)
+			ans, err := c18CurrentOp(vm, NewVariable(), sp, n)
+			verify(err == nil, "current_op(P, spec, name) raised an error")
+			e := m.tab[i][c18Class(sp)]
+			if e != nil && decide(e.spec == sp) {
+				verify(len(ans) == 1 && decide(ans[0].p == Term(e.prio)), "current_op(P, spec, name) does not report the definition with that specifier")
+			} else {
+				verify(len(ans) == 0, "current_op(P, spec, name) answers for a specifier the name is not defined with")
+			}
+		}
+	}
 	// reading and writing use exactly that table (name foo)
 	fi := m.idx(c18Foo)
 	c18ReadWrite(vm, m.tab[fi])
